@@ -86,6 +86,7 @@ pub fn run(ctx: &mut Ctx) {
   let mut vblank_requests = 0u64;
   let mut stat_requests = 0u64;
   let mut reg_changes = 0u64;
+  let mut lcdc_changes = 0u64;
   let mut unit = 0u64;
   let lycs: Vec<u8> = {
     let mut v: Vec<u8> = (0..=160u16).map(|x| x as u8).collect();
@@ -120,12 +121,24 @@ pub fn run(ctx: &mut Ctx) {
         let (mut stat, mut lyc) = (stat, lyc);
         while t < total {
           if part % 3 == 2 && rng.chance(1, 12) {
-            if rng.chance(1, 2) {
-              stat = (rng.below(16) as u8) << 3;
-              let _ = v.set_lcd_status(stat);
-            } else {
-              lyc = *rng.pick(&lycs);
-              let _ = v.set_ly_compare(lyc);
+            match rng.below(5) {
+              0 | 1 => {
+                stat = (rng.below(16) as u8) << 3;
+                let _ = v.set_lcd_status(stat);
+              }
+              2 | 3 => {
+                lyc = *rng.pick(&lycs);
+                let _ = v.set_ly_compare(lyc);
+              }
+              _ => {
+                // LCDC rewritten, display switched off and on included: the statement knows
+                // no exception ("always reflect this schedule"), and the code has none
+                v.set_lcd_control(rng.u8());
+                if rng.chance(1, 2) {
+                  v.set_lcd_control(0x91 | (rng.u8() & 0x6e)); // off and on again within the same instant
+                }
+                lcdc_changes += 1;
+              }
             }
             reg_changes += 1;
           }
@@ -201,6 +214,7 @@ pub fn run(ctx: &mut Ctx) {
   ctx.count("vblank-requests-observed", vblank_requests);
   ctx.count("stat-requests-observed", stat_requests);
   ctx.count("enable-or-lyc-rewrites-between-batches", reg_changes);
+  ctx.count("lcdc-rewrites-between-batches(display-off/on-included)", lcdc_changes);
 }
 
 pub fn on_crash(intent: &[u64], text: &str, status: &str, _err: &str) -> Option<(String, String)> {
